@@ -259,7 +259,7 @@ class Comp:
         last_logged = LOGGED[-1] if LOGGED else None
         if k == "send":
             line = f"send {op[1]}"
-            f = lambda: b.send(unhx(op[1]))
+            f = lambda: self.w.send_message(unhx(op[1]))     # through the real façade
         elif k == "boss":
             line = f"boss {op[1]}"
             name = op[1]
@@ -603,7 +603,29 @@ def gen_e2e(rng, tier):
     chaos = rng.choice([0.0, 0.3, 1.0, 2.0])
     eager = rng.choice([0.3, 1.0, 3.0])       # how eagerly the applications call the API
     ops = []
-    run = E2ERun(seed, deleg)
+    # re-entrant applications: API calls made from inside delegate / Deferred callbacks
+    script = None
+    if rng.random() < 0.4:
+        script = {}
+        n = 0
+        for who in (0, 1):
+            d = {}
+            for ev in ("welcome", "code", "key", "verifier", "versions", "message"):
+                if rng.random() < 0.4:
+                    occ = []
+                    for _ in range(rng.choice([1, 1, 2])):
+                        acts = []
+                        for _ in range(rng.choice([1, 1, 2])):
+                            n += 1
+                            acts.append(["send", "5c%02x%02x" % (who, n)])
+                        if with_close and rng.random() < 0.1:
+                            acts.append(["close"])
+                        occ.append(acts)
+                    d[ev] = occ
+            if d:
+                script[str(who)] = d
+    nfollow = 0
+    run = E2ERun(seed, deleg, script)
     try:
         for _ in range(rng.randrange(40, 260)):
             cand = []
@@ -643,6 +665,7 @@ def gen_e2e(rng, tier):
                 x -= w
                 if x <= 0:
                     break
+            before = dict(run.reacted)
             if op[0] == "todo":
                 nxt = todo[op[1]][0]
                 if run.do(nxt):
@@ -650,14 +673,63 @@ def gen_e2e(rng, tier):
                     ops.append(nxt)
                 else:
                     ops.append(["s2c", op[1] ^ 1]) if run.do(["s2c", op[1] ^ 1]) else None
-                continue
-            run.do(op)
-            ops.append(op)
+            else:
+                run.do(op)
+                ops.append(op)
+            for who in (0, 1):
+                # the application reacted inside a callback during this step: it may call send_message again
+                # right after the triggering call returned, before any eventual turn runs
+                if run.reacted[who] > before[who] and rng.random() < 0.7:
+                    nfollow += 1
+                    f = ["api", who, "send", "5d%02x%02x" % (who, nfollow)]
+                    run.do(f)
+                    ops.append(f)
     finally:
         run.close()
     for who in (0, 1):
         ops.extend(todo[who])
-    return dict(kind="e2e", seed=seed, deleg=deleg, ops=ops)
+    case = dict(kind="e2e", seed=seed, deleg=deleg, ops=ops)
+    if script:
+        case["script"] = script
+    return case
+
+
+def reent_case(ev, deleg, nacts=1, follow=True, closing=False):
+    """client 0's application calls send_message() from inside its `ev` callback and (follow) once more right after
+    the call that triggered the callback has returned, before any eventual turn; everything else runs FIFO"""
+    acts = [["send", "e1%02x" % i] for i in range(nacts)] + ([["close"]] if closing else [])
+    script = {"0": {ev: [acts]}}
+    run = E2ERun(21, deleg, script)
+    ops = []
+
+    def step(op):
+        before = run.reacted[0]
+        run.do(op)
+        ops.append(op)
+        if follow and run.reacted[0] > before:
+            f = ["api", 0, "send", "f2%02x" % len(ops)]
+            run.do(f)
+            ops.append(f)
+    try:
+        for op in [["open", 0], ["open", 1], ["api", 1, "send", "b0"], ["api", 0, "send", "a0"],
+                   ["api", 0, "set_code", CODE], ["api", 1, "set_code", CODE]]:
+            step(op)
+        for _ in range(400):
+            progressed = False
+            for who in (0, 1):
+                c = run.cl[who]
+                if c.conn is not None and c.conn.c2s:
+                    step(["c2s", who]); progressed = True
+                elif c.conn is not None and c.conn.s2c:
+                    step(["s2c", who]); progressed = True
+                elif c.eq._calls:
+                    step(["turn", who]); progressed = True
+            if not progressed:
+                break
+        step(["api", 0, "send", "a9"])
+    finally:
+        run.close()
+    return dict(kind="e2e", seed=21, deleg=deleg, ops=ops, script=script, reent=True)
 
 
 def perm_swaps(perm):
@@ -823,13 +895,56 @@ def classify(recv, sent):
     return "extra"
 
 
+DELEGATE_EVENTS = {"wormhole_got_welcome": "welcome", "wormhole_got_code": "code",
+                   "wormhole_got_unverified_key": "key", "wormhole_got_verifier": "verifier",
+                   "wormhole_got_versions": "versions", "wormhole_got_message": "message",
+                   "wormhole_closed": "closed"}
+
+
+class ScriptDelegate:
+    """A re-entrant application (Delegated API): forwards every callback to the World's recording delegate and then,
+    still INSIDE the callback, performs the scripted API calls (send_message / close) for that event."""
+
+    def __init__(self, orig, run, who):
+        self._orig = orig
+        self._run = run
+        self._who = who
+
+    def __getattr__(self, name):
+        f = getattr(self._orig, name)
+        ev = DELEGATE_EVENTS.get(name)
+        if ev is None:
+            return f
+
+        def cb(*a):
+            r = f(*a)
+            self._run.react(self._who, ev)
+            return r
+        return cb
+
+
 class E2ERun:
-    def __init__(self, seed, deleg):
+    def __init__(self, seed, deleg, script=None):
         self.W = World(seed=seed)
         self.W.__enter__()
         W = self.W
         self.deleg = deleg
         self.cl = [W.add_client(delegated=deleg[0]), W.add_client(delegated=deleg[1])]
+        # what the applications do from inside their callbacks: script[str(who)][event] = [[action, …] per occurrence]
+        self.script = {int(k): {e: [list(x) for x in v] for e, v in d.items()} for k, d in (script or {}).items()}
+        self.reacted = {0: 0, 1: 0}        # number of scripted reactions performed so far, per client
+        for who in (0, 1):
+            c = self.cl[who]
+            if who not in self.script:
+                continue
+            if c.delegated:
+                c.w._delegate = ScriptDelegate(c.w._delegate, self, who)
+            else:
+                # Deferred API: the application reacts inside its Deferred callbacks (which run in an eventual turn)
+                for ev, meth in (("welcome", c.w.get_welcome), ("code", c.w.get_code), ("key", c.w.get_unverified_key),
+                                 ("verifier", c.w.get_verifier), ("versions", c.w.get_versions)):
+                    d = meth()
+                    d.addCallbacks(lambda r, ev=ev, who=who: self.react(who, ev), lambda f: None)
         self.events = []
         self.taps = [Tap(self.events, self.cl[0], 0), Tap(self.events, self.cl[1], 1)]
         self.sent = {0: [], 1: []}
@@ -841,6 +956,19 @@ class E2ERun:
 
     def close(self):
         self.W.__exit__(None, None, None)
+
+    def react(self, who, ev):
+        """the application's scripted reaction to one callback, performed inside that callback"""
+        acts = self.script.get(who, {}).get(ev)
+        if not acts:
+            return
+        for act in acts.pop(0):
+            self.reacted[who] += 1
+            self.tags.add("e2e:reentrant:" + ev + ":" + act[0] + (":deleg" if self.cl[who].delegated else ":defer"))
+            if act[0] == "send":
+                self.do(["api", who, "send", act[1]])
+            elif act[0] == "close":
+                self.do(["api", who, "close"])
 
     def check(self, where):
         cl, sent, taps, viol = self.cl, self.sent, self.taps, self.viol
@@ -933,7 +1061,7 @@ class E2ERun:
 
 def run_e2e(case):
     lines, exp = [], []
-    run = E2ERun(case["seed"], case["deleg"])
+    run = E2ERun(case["seed"], case["deleg"], case.get("script"))
     try:
         W, cl, taps, sent, viol, tags, events = run.W, run.cl, run.taps, run.sent, run.viol, run.tags, run.events
         do, check, ngets = run.do, run.check, run.ngets
@@ -1049,7 +1177,15 @@ def run_e2e(case):
 
 # --------------------------------------------------------------------------- entry points
 
+REENT_EVENTS = ["welcome", "code", "key", "verifier", "versions", "message"]
+
 E2E_CORPUS = [
+    # re-entrant applications: send_message() from inside a callback, then again right after it (both API styles)
+    reent_case("code", [True, False]),
+    reent_case("verifier", [True, True], nacts=2),
+    reent_case("message", [True, False]),
+    reent_case("key", [False, True]),
+    reent_case("versions", [True, False], closing=True),
     # the peer's PAKE arrives corrupted (fix 6e06ee8: scared instead of an internal failure); messages queued behind it
     dict(kind="e2e", seed=5, deleg=[False, True],
          ops=[["open", 0], ["api", 0, "set_code", CODE], ["api", 0, "send", "a0"], ["settle"], ["open", 1],
@@ -1095,6 +1231,18 @@ def cases(rng, tier):
         out.append(dict(kind="comp", seed=rng.randrange(10**6), ops=gen_comp(rng, adversarial=(i % 3 == 2))))
     for i in range(150 * m):
         out.append(gen_e2e(rng, tier))
+    if tier == "thorough":
+        for ev in REENT_EVENTS:
+            for d0 in (True, False):
+                for d1 in (True, False):
+                    for na in (1, 2):
+                        out.append(reent_case(ev, [d0, d1], nacts=na))
+                    out.append(reent_case(ev, [d0, d1], follow=False))
+                    out.append(reent_case(ev, [d0, d1], closing=True))
+    else:
+        for _ in range(6):
+            out.append(reent_case(rng.choice(REENT_EVENTS), [rng.random() < 0.7, rng.random() < 0.5],
+                                  nacts=rng.choice([1, 2])))
     perms3 = list(itertools.permutations(range(3)))
     if tier == "thorough":
         for pm in perms3:
@@ -1142,6 +1290,10 @@ def search(rng, seconds, seeds):
             yield c, run_case(c)
     for c in E2E_CORPUS:
         yield c, run_case(c)
+    for ev in REENT_EVENTS:
+        for d0 in (True, False):
+            c = reent_case(ev, [d0, True])
+            yield c, run_case(c)
     for pm in itertools.permutations(range(3)):
         for k in range(4):
             for how in ("close", "srverr", "scare"):
